@@ -156,13 +156,13 @@ def make(cname, depth=0):
         elif pn == "scale_atoms":
             kw[pn] = False
         elif pn == "bias_towards_insert":
-            kw[pn] = 0.3
+            kw[pn] = float(rng.choice([0.3, 0.0, 1.0]))
         elif pn == "interval":
-            kw[pn] = 3
+            kw[pn] = int(rng.choice([3, 7, 1000]))
         elif pn == "probability":
-            kw[pn] = 0.25
+            kw[pn] = float(rng.choice([0.25, 3.0, 12.5, 0.0]))     # a relative weight: any non-negative number
         elif pn == "minimum_count":
-            kw[pn] = 1
+            kw[pn] = int(rng.choice([1, 2, 0]))
         elif pn == "distribution":
             continue   # callables are excepted by the property
         elif par.default is inspect.Parameter.empty:
